@@ -55,6 +55,7 @@ class NllCase:
             case = dict(case, _res0=gen.res_name(k0, ch0["res"][k0].get("id", 0), sfx), frac_value=case.get("frac_value", 0.3), frac_sigma=case.get("frac_sigma", 0.1))
             self.case = case
         spec["data"] = data_options(model, case)
+        spec["data"].update(case.get("data_extra", {}))
         if float_shape and spec["chains"]:
             # float mass and width of the first resonance (not for cached integrals)
             ch0 = spec["chains"][0]
